@@ -206,7 +206,13 @@ def wrapper_schema(rng):
 
 
 def rebuild(desc):
-    raise NotImplementedError
+    """create_and_fill cases over a generated schema can be re-run from their description"""
+    if desc.get("op") != "create_and_fill" or not isinstance(desc.get("schema"), dict):
+        raise NotImplementedError
+    sc = Schema(desc["schema"]["spec"])
+    info = SchemaInfo(sc)
+    content = Fragment.from_json(sc, desc["content"]) if desc["content"] else Fragment.empty
+    return create_case(info, desc["schema"], sc.nodes[desc["type"]], desc["attrs"], content, None, "replay")
 
 
 def classify(case):
@@ -217,4 +223,21 @@ def classify(case):
     d = case.desc
     if d.get("obs") == "RecursionError" and isinstance(d.get("schema"), dict):
         return "C15-first-choice-recursion"
+    # the same first-choice policy, other symptom: the chosen generatable type cannot itself be filled (its own
+    # required content is not generatable), NodeType.create_and_fill() returns None for it and Fragment.from_
+    # dereferences the None (AttributeError) although a filling through a later alternative exists
+    if str(d.get("obs", "")).startswith("AttributeError: 'NoneType' object has no attribute 'node_size'") \
+            and isinstance(d.get("schema"), dict):
+        try:
+            sc = Schema(d["schema"]["spec"])
+        except Exception:  # noqa: BLE001
+            return None
+        for nt in sc.nodes.values():
+            if nt.is_text or nt.has_required_attrs():
+                continue
+            try:
+                if nt.create_and_fill() is None:
+                    return "C15-fill-through-unfillable-type"
+            except Exception:  # noqa: BLE001
+                continue
     return None
